@@ -20,4 +20,18 @@ ScriptS1 == [s \in StreamsAB |->
    IF s = "sa_101v0" THEN << P(1, 3, <<2>>), P(3, 4, <<>>) >> ELSE << P(1, 2, <<2>>) >>]
 ScriptS2 == [s \in StreamsAB |->
    IF s = "sa_101v0" THEN << P(4, 6, <<5, 5>>) >> ELSE << P(1, 2, <<>>), P(2, 3, <<3>>) >>]
+CollOf3 == [s \in Streams3 |-> IF s = "sa_101v0" THEN "c1" ELSE IF s = "sa_102v0" THEN "c2" ELSE "c3"]
+SeekNone == [s \in Streams3 |-> 0]
+\* resume: every collection from its own checkpoint; the scripts continue right above the checkpoints
+SeekAB == [s \in Streams3 |-> IF s = "sa_101v0" THEN 20 ELSE IF s = "sa_102v0" THEN 12 ELSE 0]
+ScriptRAB == [s \in StreamsAB |->
+   IF s = "sa_101v0" THEN << P(20, 22, <<21>>), P(22, 23, <<>>) >> ELSE << P(12, 14, <<13>>), P(14, 15, <<>>) >>]
+\* one data pack per stream right above its checkpoint: every interleaving of start / feed / gate steps is one plan
+ScriptRS == [s \in StreamsAB |->
+   IF s = "sa_101v0" THEN << P(20, 22, <<21>>) >> ELSE << P(12, 14, <<13>>) >>]
+Seek3 == [s \in Streams3 |-> IF s = "sa_101v0" THEN 20 ELSE IF s = "sa_102v0" THEN 12 ELSE 16]
+ScriptR3 == [s \in Streams3 |->
+   IF s = "sa_101v0" THEN << P(20, 22, <<21>>) >>
+   ELSE IF s = "sa_102v0" THEN << P(12, 14, <<13>>), P(14, 15, <<>>) >>
+   ELSE << P(16, 18, <<17, 17>>) >>]
 =============================================================================
